@@ -196,6 +196,8 @@ def _check(pid, P, tier, seed, bdir, ev):
                     total_dis += nobl
                 else:
                     total_dis += max(0, nobl - max(1, len(ffails)))
+            elif 'E9' in f.get('rules', []):
+                trusted.append('contract assumed in unit %s, verified in the unit that owns the crate (E9): %s' % (uname, VR.short(key)))
             else:
                 trusted.append('assumed contract (not verified here): %s' % VR.short(key))
         for nm, t in sorted(lemma_serving.items()):
